@@ -75,14 +75,14 @@ pub fn build_world(scn: &Scenario, built: &Built, layout: &Layout, faults: &[Dis
             if x.is_dir {
                 fs::create_dir_all(&p).map_err(e)?;
             } else {
-                fs::write(&p, &x.bytes.0).map_err(e)?;
+                fs::write(&p, &x.bytes.0).map_err(|z| format!("world: extra file {}: {}", p.display(), z))?;
             }
         }
     }
     for f in &layout.files {
         let name = blk_name(f.number, f.width);
         let path = dir.join(&name);
-        let mut file = fs::File::create(&path).map_err(e)?;
+        let mut file = fs::File::create(&path).map_err(|x| format!("world: create {}: {}", path.display(), x))?;
         let mut off: u64 = 0;
         for seg in &f.segs {
             match seg {
